@@ -55,10 +55,14 @@ def main(tier):
         n_modes += 1
         what = "ext=%s FMG=%s abs=%s rel=%s exact=%s maxit=%d L=%d" % (EXT[mode["extrapolation"]], mode["FMG"], mode["abs_tol"], mode["rel_tol"],
                                                                     mode["exact"], mode["max_iterations"], mode["L"])
-        outs = sr.scenario_reuse(prog, mode)
-        for pi, o in enumerate(outs):
+        outs = [(o, "") for o in sr.scenario_reuse(prog, mode)]
+        if not (mode["abs_tol"] and mode["rel_tol"]):
+            # the tolerance options were changed between the two solves: the first solve ran with both criteria enabled
+            # (the history-richest case), the second runs with this mode's
+            outs += [(o, " first-solve-tolerances=(abs,rel)") for o in sr.scenario_reuse(prog, mode, first_tols=(True, True))]
+        for pi, (o, tag_) in enumerate(outs):
             n_paths += 1
-            pk = "%s path%d" % (what, pi)
+            pk = "%s%s path%d" % (what, tag_, pi)
             # tolerate genuine C20 events here (they are C20's business) but not as a pass: they poison outputs -> R-C13-2 below
             ck.instance("R-C13-1", pk)
             bads = {}
